@@ -36,3 +36,4 @@ void out_ent(uint64_t i, uint64_t k, uint64_t v, int64_t d, uint64_t cnt, int64_
 }
 int diff_main(uint64_t seed);
 int main(int argc, char** argv) { return diff_main(argc > 1 ? strtoull(argv[1], 0, 10) : 1); }
+_Bool __vf_mutex_try_lock(void* m) { (void)m; return 1; }
